@@ -93,6 +93,7 @@ func (f *FileOutputHandler) Write(
 					Hash:      fileHash,
 					SizeBytes: fileInfo.Size(),
 				},
+				IsExecutable: fileInfo.Mode()&0111 != 0,
 			},
 		},
 	}, nil
@@ -110,7 +111,7 @@ func (f *FileOutputHandler) Load(
 	// If the local hash is the same as the cached one we don't need to
 	// load the file from the CAS
 	if err == nil && existingHash == output.GetFile().GetDigest().GetHash() {
-		return nil
+		return restoreFileMode(absOutputPath, output.GetFile().GetIsExecutable())
 	}
 
 	progress := tracker
@@ -154,5 +155,15 @@ func (f *FileOutputHandler) Load(
 		return err
 	}
 
-	return nil
+	return restoreFileMode(absOutputPath, output.GetFile().GetIsExecutable())
+}
+
+// restoreFileMode restores the executable permission that the file had when it was cached
+// (a restored binary output must still be runnable).
+func restoreFileMode(path string, isExecutable bool) error {
+	mode := os.FileMode(0644)
+	if isExecutable {
+		mode = 0755
+	}
+	return os.Chmod(path, mode)
 }
